@@ -32,11 +32,15 @@ Section StepsB3.
     split; [now apply K3|]. destruct K2 as [_ Ich _ _ _ _ _]. eapply is_chain_lt; eauto.
   Qed.
 
-  Lemma JW_ev g a tr t e : disposed_ev e = [] -> retired_ev e = [] -> JW g a (disposed_tr tr) (retired_tr tr) ->
-    JW g a (disposed_tr (tr ++ Conc.tag t [e])) (retired_tr (tr ++ Conc.tag t [e])).
+  Lemma JW_ev g a tr t e : disposed_ev e = [] -> retired_ev e = [] ->
+    match classify e with HAtt _ | HScanb _ => False | _ => True end ->
+    JW g a (disposed_tr tr) (retired_tr tr) tr ->
+    JW g a (disposed_tr (tr ++ Conc.tag t [e])) (retired_tr (tr ++ Conc.tag t [e])) (tr ++ Conc.tag t [e]).
   Proof.
-    intros E E' J. rewrite disposed_tr_app. change (disposed_tr (Conc.tag t [e])) with (disposed_ev e ++ []). rewrite E, app_nil_r.
-    rewrite retired_tr_app. change (retired_tr (Conc.tag t [e])) with (retired_ev e ++ []). rewrite E', !app_nil_r. exact J.
+    intros E E' Hc J. rewrite disposed_tr_app. change (disposed_tr (Conc.tag t [e])) with (disposed_ev e ++ []). rewrite E, app_nil_r.
+    rewrite retired_tr_app. change (retired_tr (Conc.tag t [e])) with (retired_ev e ++ []). rewrite E', !app_nil_r.
+    apply JW_frame with (g := g) (a := a) (rt := retired_tr tr) (tr := tr); auto.
+    apply DhpConsSTrace.HSame_hq. constructor; [split; assumption|constructor].
   Qed.
 
   Definition aux_blk (a : AuxB) (t b : nat) : AuxB :=
@@ -76,7 +80,7 @@ Section StepsB3.
       + intros b' r' H. cbn. rewrite fn_other; auto. intros ->. congruence.
       + vwt t.
       + vwt t.
-    - apply JW_ev; [apply disposed_ev_alloc|reflexivity|]. eapply JW_bvs with (t := t) (a := a); try reflexivity; auto.
+    - apply JW_ev; [apply disposed_ev_alloc|reflexivity|now rewrite classify_alloc|]. eapply JW_bvs with (t := t) (a := a); try reflexivity; auto.
   Qed.
 
   (** the allocator creates a block: new retired_block *)
@@ -188,7 +192,7 @@ Section StepsB3.
       + intros b' r' H. cbn. rewrite fn_other; auto. intros ->. congruence.
       + vwt t.
       + vwt t.
-    - apply JW_ev; [apply disposed_ev_free|reflexivity|]. eapply JW_bvs with (t := t) (a := a); try reflexivity; auto.
+    - apply JW_ev; [apply disposed_ev_free|reflexivity|now rewrite classify_free|]. eapply JW_bvs with (t := t) (a := a); try reflexivity; auto.
   Qed.
 
   (** next = p->next_ while walking a private chain of blocks: the head of the chain becomes the held block *)
